@@ -863,7 +863,22 @@ pub fn exec_step(w: &mut World, ctx: &mut Ctx, st: &Step) -> StepResult {
             let d = doc!(a0);
             let revealing = a1 % 2 == 1;
             let action = action_of(a2, a4 >> 1);
-            let targets = select_targets(&w.docs[d].m, a3, a4);
+            let mut targets = select_targets(&w.docs[d].m, a3, a4);
+            if a1 & 2 != 0 && !revealing {
+                // aimed form: exactly the inner assertion of every assertion element that carries assertions of its
+                // own (the decorations stay in clear); falls back to the mask when the document has none
+                let inner: BTreeSet<D> = w.docs[d]
+                    .m
+                    .positions()
+                    .iter()
+                    .filter(|x| x.is_node() && matches!(x.subject().kind(), crate::model::MKind::Assertion(..)) && x.subject().obsc().is_clear())
+                    .map(|x| x.subject().digest())
+                    .collect();
+                if !inner.is_empty() {
+                    ctx.probe("decorated-assertion-inner-obscured");
+                    targets = inner;
+                }
+            }
             let lib_targets = to_lib_set(&targets);
             let act = obscure_action(action);
             let what = format!("elide_{}_set_with_action({:?}, {} targets)", if revealing { "revealing" } else { "removing" }, action, targets.len());
@@ -1452,7 +1467,9 @@ pub fn generate(property: &str, r: &mut SimRng, seed: u64) -> Scenario {
                     _ => (1u64 << r.below(12)) | (1u64 << r.below(12)),
                 };
                 let extra = (if r.chance(1, 6) { 1 } else { 0 }) | (r.below(4) << 1) | (r.below(1 << 20) << 8);
-                vec![ds(r), r.below(2), r.below(3), mask, extra]
+                // (no further draw: one mask in eight selects the aimed form, see the interpreter)
+                let aimed = if mask % 8 == 5 { 2 } else { 0 };
+                vec![ds(r), r.below(2) | aimed, r.below(3), mask, extra]
             }
             _ => vec![ds(r), ds(r), ds(r), r.next()],
         };
